@@ -49,12 +49,15 @@ def _iter(ctx, elf, off, size, via):
         return ctx.walk(lambda: N.iter_notes(elf, off, size))
     if via == 'section':
         SEC = ctx.lib('elf.sections')
-        hdr = shdr(sh_offset=off, sh_size=size, sh_type='SHT_NOTE', sh_flags=2, sh_addralign=4)
+        ctx._c14n = getattr(ctx, '_c14n', 0) + 1
+        # the statement fixes the padding at 4 bytes: whatever alignment the section / segment header asks for
+        hdr = shdr(sh_offset=off, sh_size=size, sh_type='SHT_NOTE', sh_flags=2, sh_addralign=ctx.uint('sh_addralign#%d' % ctx._c14n, 32))
         elf.structs  # noqa
         sec = SEC.NoteSection(hdr, '.note', elf)
         return ctx.walk(lambda: sec.iter_notes())
     SEG = ctx.lib('elf.segments')
-    hdr = phdr(p_offset=off, p_filesz=size, p_type='PT_NOTE')
+    ctx._c14n = getattr(ctx, '_c14n', 0) + 1
+    hdr = phdr(p_offset=off, p_filesz=size, p_type='PT_NOTE', p_align=ctx.uint('p_align#%d' % ctx._c14n, 32))
     seg = SEG.NoteSegment(hdr, elf.stream, elf)
     return ctx.walk(lambda: seg.iter_notes())
 
